@@ -2,6 +2,8 @@ package main
 
 import (
 	"flag"
+	"sort"
+	"strings"
 	"fmt"
 	"os"
 	"path/filepath"
@@ -72,6 +74,26 @@ func main() {
 		code := engine.RunCheck(p, cfg, seed)
 		os.RemoveAll(work)
 		os.Exit(code)
+	case "infer-variants":
+		cfg := &engine.CheckConfig{Property: *prop, Tier: "quick", WorkDir: work, VerifDir: vdir, Timeout: 5, Jobs: *jobs}
+		var keys []string
+		for k := range p.Funcs {
+			if strings.Contains(k, *fn) && p.Contracts.Funcs[k] != nil {
+				keys = append(keys, k)
+			}
+		}
+		sort.Strings(keys)
+		for _, k := range keys {
+			res := p.InferVariants(p.Funcs[k], cfg)
+			var ords []int
+			for o := range res {
+				ords = append(ords, o)
+			}
+			sort.Ints(ords)
+			for _, o := range ords {
+				fmt.Printf("%s\tloop %d decreases %s\n", k, o, res[o])
+			}
+		}
 	case "dumpall":
 		engine.DumpAll(p, *fn)
 	case "dump":
